@@ -25,7 +25,15 @@ type node struct {
 	head  string // e.g. Option   (the constructor a defect is attributed to)
 	depth int
 	kids  []*node
+	// dom is a prototype of the value domain (sizes, printing, outcome census); mkDom builds the
+	// domain FRESH and is called inside every execution, so the operands of one execution are
+	// never shared with another, and slice-like carriers can contain values that ALIAS one
+	// another (views base[:1], base[:2], base, base[1:] of one array next to independent copies)
 	dom   []any
+	mkDom func() []any
+	// pick chooses the representatives handed to the enclosing combinator; nil = by the reference
+	// equality (pickRepresentatives)
+	pick  func(dom []any) reps
 	cSize int // how many values the third operand ranges over
 
 	eqv   func(a, b any) bool // eq-package instance
@@ -33,11 +41,6 @@ type node struct {
 	hashf func(a any) uint32  // hash-package instance, Hash
 	ref   func(a, b any) bool // reference: component-wise equality
 	show  func(a any) string
-	// x, xa, y: xa is a different representation of a value equal to x when the type has
-	// one (otherwise xa is x again); y differs from x whenever the type has two values.
-	x, xa, y any
-	rest     []any // the other domain values
-
 	memo  map[string]string
 	known map[string]bool
 }
@@ -60,7 +63,40 @@ func finish[T any](n *node, e fp.Eq[T], h fp.Hashable[T]) *inst[T] {
 	return &inst[T]{n, e, h}
 }
 
-func newNode(head string, dom []any, ref func(a, b any) bool, show func(any) string, kids ...*node) *node {
+// reps are the values of a type that an enclosing combinator builds its own domain from.
+// xa is a different representation of a value equal to x when the type has one (otherwise xa is
+// x again); y differs from x whenever the type has two values; rest are the other domain values.
+type reps struct {
+	x, xa, y any
+	rest     []any
+}
+
+// elems: x, xa, y, then the rest.
+func (r reps) elems() []any { return append([]any{r.x, r.xa, r.y}, r.rest...) }
+
+func (r reps) at(k int) any {
+	switch k {
+	case 0:
+		return r.x
+	case 1:
+		return r.xa
+	}
+	return r.y
+}
+
+// capFor: the slice-like carriers get two more values (the aliasing views).
+func capFor(head string) int {
+	switch head {
+	case "Seq", "Slice", "Bytes":
+		return domCap + 2
+	}
+	return domCap
+}
+
+// fixed wraps a domain of immutable values.
+func fixed[T any](s []T) func() []any { return func() []any { return anys(s) } }
+
+func newNode(head string, mk func() []any, ref func(a, b any) bool, show func(any) string, kids ...*node) *node {
 	names := make([]string, len(kids))
 	depth := 0
 	for j, k := range kids {
@@ -73,18 +109,32 @@ func newNode(head string, dom []any, ref func(a, b any) bool, show func(any) str
 	if len(kids) > 0 {
 		name = head + "(" + strings.Join(names, ",") + ")"
 	}
-	if len(dom) > domCap {
-		dom = dom[:domCap]
+	lim := capFor(head)
+	mkDom := func() []any {
+		d := mk()
+		if len(d) > lim {
+			d = d[:lim]
+		}
+		return d
 	}
-	n := &node{name: name, head: head, depth: depth, kids: kids, dom: dom, cSize: len(dom), ref: ref, show: show, memo: map[string]string{}, known: map[string]bool{}}
-	n.pickRepresentatives()
-	return n
+	dom := mkDom()
+	return &node{name: name, head: head, depth: depth, kids: kids, dom: dom, mkDom: mkDom, cSize: len(dom), ref: ref, show: show, memo: map[string]string{}, known: map[string]bool{}}
 }
+
+// fresh builds the domain anew and picks the representatives from it.
+func (n *node) fresh() ([]any, reps) {
+	d := n.mkDom()
+	if n.pick != nil {
+		return d, n.pick(d)
+	}
+	return d, n.pickRepresentatives(d)
+}
+
+func (n *node) freshReps() reps { _, r := n.fresh(); return r }
 
 // pickRepresentatives chooses x, xa (equal to x, different representation if the domain has such
 // a pair), y (different from x) and the remaining values.
-func (n *node) pickRepresentatives() {
-	d := n.dom
+func (n *node) pickRepresentatives(d []any) reps {
 	p, q := 0, -1
 outer:
 	for a := 0; a < len(d); a++ {
@@ -95,43 +145,31 @@ outer:
 			}
 		}
 	}
-	n.x, n.xa, n.y = d[p], d[p], d[p]
+	r := reps{x: d[p], xa: d[p], y: d[p]}
 	if q >= 0 {
-		n.xa = d[q]
+		r.xa = d[q]
 	}
 	yi := -1
 	for k, v := range d {
 		if !n.ref(d[p], v) {
-			n.y, yi = v, k
+			r.y, yi = v, k
 			break
 		}
 	}
-	n.rest = nil
 	for k, v := range d {
 		if k != p && k != q && k != yi {
-			n.rest = append(n.rest, v)
+			r.rest = append(r.rest, v)
 		}
 	}
-}
-
-// elems: x, xa, y, then the rest.
-func (n *node) elems() []any { return append([]any{n.x, n.xa, n.y}, n.rest...) }
-
-func (n *node) at(k int) any {
-	switch k {
-	case 0:
-		return n.x
-	case 1:
-		return n.xa
-	}
-	return n.y
+	return r
 }
 
 // law runs the oracle on dom[a], dom[b], dom[c] for family "eq" or "hash"; "" = holds.
 // It is the whole oracle: reflexive, symmetric, transitive, Eqv = component-wise equality,
 // Hash deterministic, Eqv-equal values hash equally. Nothing is demanded of hash values.
 func (n *node) law(fam string, ia, ib, ic int) (law, msg string) {
-	a, b, c := n.dom[ia], n.dom[ib], n.dom[ic]
+	dom, _ := n.fresh() // the operands of this execution
+	a, b, c := dom[ia], dom[ib], dom[ic]
 	e := n.eqv
 	if fam == "hash" {
 		e = n.heqv
@@ -149,9 +187,9 @@ func (n *node) law(fam string, ia, ib, ic int) (law, msg string) {
 		return "symmetric", fmt.Sprintf("%s.%s: Eqv(a,b)=%v but Eqv(b,a)=%v for a=%s b=%s", fam, n.name, ab, ba, n.show(a), n.show(b))
 	case ab && bc && !ac:
 		return "transitive", fmt.Sprintf("%s.%s: Eqv(a,b) and Eqv(b,c) but not Eqv(a,c) for a=%s b=%s c=%s", fam, n.name, n.show(a), n.show(b), n.show(c))
-	case ab != n.ref(a, b):
-		return "componentwise", fmt.Sprintf("%s.%s: Eqv(a,b)=%v but component-wise equality is %v, for a=%s b=%s", fam, n.name, ab, n.ref(a, b), n.show(a), n.show(b))
 	}
+	// the Hashable contract is stated in terms of the instance's own Eqv, so it is looked at
+	// before Eqv is compared with the reference
 	if fam == "hash" {
 		ha, ha2, hb := n.hashf(a), n.hashf(a), n.hashf(b)
 		if ha != ha2 {
@@ -160,6 +198,9 @@ func (n *node) law(fam string, ia, ib, ic int) (law, msg string) {
 		if ab && ha != hb {
 			return "hash-agrees-with-eqv", fmt.Sprintf("hash.%s: Eqv(a,b) but Hash(a)=%d, Hash(b)=%d for a=%s b=%s", n.name, ha, hb, n.show(a), n.show(b))
 		}
+	}
+	if ab != n.ref(a, b) {
+		return "componentwise", fmt.Sprintf("%s.%s: Eqv(a,b)=%v but component-wise equality is %v, for a=%s b=%s", fam, n.name, ab, n.ref(a, b), n.show(a), n.show(b))
 	}
 	return "", ""
 }
@@ -241,22 +282,28 @@ func anys[T any](s []T) []any {
 }
 
 func given[T comparable](tname string, dom []T) *inst[T] {
-	n := newNode("Given["+tname+"]", anys(dom), func(a, b any) bool { return a.(T) == b.(T) }, showNum)
+	n := newNode("Given["+tname+"]", fixed(dom), func(a, b any) bool { return a.(T) == b.(T) }, showNum)
 	return finish[T](n, eq.Given[T](), nil)
 }
 
 func number[T fp.ImplicitNum](tname string, dom []T) *inst[T] {
-	n := newNode("Number["+tname+"]", anys(dom), func(a, b any) bool { return a.(T) == b.(T) }, showNum)
+	n := newNode("Number["+tname+"]", fixed(dom), func(a, b any) bool { return a.(T) == b.(T) }, showNum)
 	return finish(n, eq.Given[T](), hash.Number[T]())
 }
 
 func baseString() *inst[string] {
-	n := newNode("String", anys([]string{"", "a", "b", "ab", "ba"}), func(a, b any) bool { return a.(string) == b.(string) }, func(v any) string { return fmt.Sprintf("%q", v) })
+	n := newNode("String", fixed([]string{"", "a", "b", "ab", "ba"}), func(a, b any) bool { return a.(string) == b.(string) }, func(v any) string { return fmt.Sprintf("%q", v) })
 	return finish(n, eq.String, hash.String)
 }
 
 func baseBytes() *inst[[]byte] {
-	n := newNode("Bytes", anys([][]byte{nil, {}, {1}, {1}, {2}, {1, 2}, {2, 1}, {1, 2, 0}}),
+	mk := func() []any {
+		base := []byte{1, 2, 1}
+		// nil, empty, view base[:2], an independent copy of it, the longer view base, then
+		// base[:1], base[1:] and independent values
+		return anys([][]byte{nil, {}, base[:2], {1, 2}, base, base[:1], base[1:], {2, 1}, {1}, {2}})
+	}
+	n := newNode("Bytes", mk,
 		func(x, y any) bool {
 			a, b := x.([]byte), y.([]byte)
 			if len(a) != len(b) {
@@ -275,6 +322,7 @@ func baseBytes() *inst[[]byte] {
 			}
 			return fmt.Sprint(v)
 		})
+	n.pick = pickAliasing
 	return finish(n, eq.Bytes, hash.Bytes)
 }
 
@@ -282,7 +330,7 @@ func baseTime() *inst[time.Time] {
 	t0 := time.Date(2024, 2, 29, 12, 0, 0, 5, time.UTC)
 	kst := time.FixedZone("KST", 9*3600)
 	dom := []time.Time{t0, t0.In(kst), t0.Add(time.Nanosecond), t0.Add(-time.Hour), {}, time.Time{}.In(kst), time.Unix(0, 0), time.Unix(0, 0).UTC()}
-	n := newNode("Time", anys(dom),
+	n := newNode("Time", fixed(dom),
 		func(x, y any) bool {
 			a, b := x.(time.Time), y.(time.Time)
 			return a.Unix() == b.Unix() && a.Nanosecond() == b.Nanosecond()
@@ -292,23 +340,26 @@ func baseTime() *inst[time.Time] {
 }
 
 func baseHNil() *inst[hlist.Nil] {
-	n := newNode("HNil", anys([]hlist.Nil{{}, hlist.Empty()}), func(a, b any) bool { return true }, func(any) string { return "HNil" })
+	n := newNode("HNil", fixed([]hlist.Nil{{}, hlist.Empty()}), func(a, b any) bool { return true }, func(any) string { return "HNil" })
 	return finish(n, eq.HNil, hash.HNil)
 }
 
 // user-supplied functions through eq.New / hash.New
 func baseNew() *inst[int] {
 	e := eq.New(func(a, b int) bool { return a%3 == b%3 })
-	n := newNode("New[int mod 3]", anys([]int{0, 1, 2, 3, 4, 6}), func(a, b any) bool { return a.(int)%3 == b.(int)%3 }, showNum)
+	n := newNode("New[int mod 3]", fixed([]int{0, 1, 2, 3, 4, 6}), func(a, b any) bool { return a.(int)%3 == b.(int)%3 }, showNum)
 	return finish(n, e, hash.New(e, func(a int) uint32 { return uint32(a % 3) }))
 }
 
 // ---------- combinators: the typed part only converts between T and its components ----------
 
 func optionOf[T any](k *inst[T]) *inst[fp.Option[T]] {
-	dom := []any{fp.None[T](), fp.Option[T]{}}
-	for _, v := range k.n.elems() {
-		dom = append(dom, fp.Some(v.(T)))
+	mk := func() []any {
+		dom := []any{fp.None[T](), fp.Option[T]{}}
+		for _, v := range k.n.freshReps().elems() {
+			dom = append(dom, fp.Some(v.(T)))
+		}
+		return dom
 	}
 	get := func(v any) (any, bool) {
 		o := v.(fp.Option[T])
@@ -317,7 +368,7 @@ func optionOf[T any](k *inst[T]) *inst[fp.Option[T]] {
 		}
 		return nil, false
 	}
-	n := newNode("Option", dom, optRef(k.n, get), optShow(k.n, get, "None", "Some(", ")"), k.n)
+	n := newNode("Option", mk, optRef(k.n, get), optShow(k.n, get, "None", "Some(", ")"), k.n)
 	var h fp.Hashable[fp.Option[T]]
 	if k.hash != nil {
 		h = hash.Option(k.hash)
@@ -346,8 +397,29 @@ func optShow(k *node, get func(any) (any, bool), none, pre, post string) func(an
 	}
 }
 
-// seqShapes: index lists into (x, xa, y); -1 = nil slice
-var seqShapes = [][]int{nil, {}, {0}, {1}, {2}, {0, 2}, {2, 0}, {1, 2}}
+// The domain of a slice-like carrier over an element type with representatives x, xa, y:
+//
+//	base := [x y xa]                      one backing array
+//	0 nil          1 empty
+//	2 base[:2]     a VIEW                 [x y]
+//	3 [x y]        an independent copy of it
+//	4 base         the LONGER view, same start, [x y xa]
+//	5 base[:1]     a shorter view, same start
+//	6 base[1:]     a view with a different start, [y xa]
+//	7 [y x]   8 [xa]   9 [xa y]           independent values (7 equals 6 and 9 equals 2 when xa ~ x)
+//
+// so that all pairs and triples include (independent copy, view, longer view of the same array).
+// The representatives handed to an enclosing combinator are x = the view, xa = the copy, y = the
+// longer view, so every instance nested over a sequence compares them as well.
+func aliasingSlices[T any](r reps) [][]T {
+	x, xa, y := r.x.(T), r.xa.(T), r.y.(T)
+	base := []T{x, y, xa}
+	return [][]T{nil, {}, base[:2], {x, y}, base, base[:1], base[1:], {y, x}, {xa}, {xa, y}}
+}
+
+func pickAliasing(d []any) reps {
+	return reps{x: d[2], xa: d[3], y: d[4], rest: append(append([]any{}, d[:2]...), d[5:]...)}
+}
 
 func listRef(k *node, split func(any) ([]any, bool)) func(a, b any) bool {
 	return func(a, b any) bool {
@@ -379,26 +451,19 @@ func listShow(k *node, split func(any) ([]any, bool)) func(any) string {
 	}
 }
 
-func buildSlice[T any](k *node, shape []int) []T {
-	if shape == nil {
-		return nil
-	}
-	out := make([]T, 0, len(shape))
-	for _, j := range shape {
-		out = append(out, k.at(j).(T))
-	}
-	return out
-}
-
 func splitSlice[T any](s []T) ([]any, bool) { return anys(s), s == nil }
 
 func seqOf[T any](k *inst[T]) *inst[fp.Seq[T]] {
-	var dom []any
-	for _, sh := range seqShapes {
-		dom = append(dom, fp.Seq[T](buildSlice[T](k.n, sh)))
+	mk := func() []any {
+		var dom []any
+		for _, sl := range aliasingSlices[T](k.n.freshReps()) {
+			dom = append(dom, fp.Seq[T](sl))
+		}
+		return dom
 	}
 	split := func(v any) ([]any, bool) { return splitSlice[T](v.(fp.Seq[T])) }
-	n := newNode("Seq", dom, listRef(k.n, split), listShow(k.n, split), k.n)
+	n := newNode("Seq", mk, listRef(k.n, split), listShow(k.n, split), k.n)
+	n.pick = pickAliasing
 	var h fp.Hashable[fp.Seq[T]]
 	if k.hash != nil {
 		h = hash.Seq(k.hash)
@@ -407,12 +472,10 @@ func seqOf[T any](k *inst[T]) *inst[fp.Seq[T]] {
 }
 
 func sliceOf[T any](k *inst[T]) *inst[[]T] {
-	var dom []any
-	for _, sh := range seqShapes {
-		dom = append(dom, buildSlice[T](k.n, sh))
-	}
+	mk := func() []any { return anys(aliasingSlices[T](k.n.freshReps())) }
 	split := func(v any) ([]any, bool) { return splitSlice[T](v.([]T)) }
-	n := newNode("Slice", dom, listRef(k.n, split), listShow(k.n, split), k.n)
+	n := newNode("Slice", mk, listRef(k.n, split), listShow(k.n, split), k.n)
+	n.pick = pickAliasing
 	var h fp.Hashable[[]T]
 	if k.hash != nil {
 		h = hash.Slice(k.hash)
@@ -423,10 +486,14 @@ func sliceOf[T any](k *inst[T]) *inst[[]T] {
 func ptrTo[T any](v any) any { t := v.(T); return &t }
 
 func ptrNode[T any](head string, k *node) *node {
-	p4 := ptrTo[T](k.y)
-	dom := []any{(*T)(nil), ptrTo[T](k.x), ptrTo[T](k.x), ptrTo[T](k.xa), p4, p4}
-	for _, v := range k.rest {
-		dom = append(dom, ptrTo[T](v))
+	mk := func() []any {
+		r := k.freshReps()
+		p4 := ptrTo[T](r.y)
+		dom := []any{(*T)(nil), ptrTo[T](r.x), ptrTo[T](r.x), ptrTo[T](r.xa), p4, p4}
+		for _, v := range r.rest {
+			dom = append(dom, ptrTo[T](v))
+		}
+		return dom
 	}
 	get := func(v any) (any, bool) {
 		p := v.(*T)
@@ -435,7 +502,7 @@ func ptrNode[T any](head string, k *node) *node {
 		}
 		return *p, true
 	}
-	return newNode(head, dom, optRef(k, get), optShow(k, get, "nil", "&", ""), k)
+	return newNode(head, mk, optRef(k, get), optShow(k, get, "nil", "&", ""), k)
 }
 
 func ptrOf[T any](k *inst[T]) *inst[*T] {
@@ -483,16 +550,20 @@ func mapShow(k *node, get func(m any, key string) (any, bool), kind func(any) st
 }
 
 func goMapOf[T any](k *inst[T]) *inst[map[string]T] {
-	var dom []any
-	for _, sh := range mapShapes {
-		var m map[string]T
-		if sh != nil {
-			m = map[string]T{}
-			for _, kv := range sh {
-				m[kv[0].(string)] = k.n.at(kv[1].(int)).(T)
+	mk := func() []any {
+		var dom []any
+		r := k.n.freshReps()
+		for _, sh := range mapShapes {
+			var m map[string]T
+			if sh != nil {
+				m = map[string]T{}
+				for _, kv := range sh {
+					m[kv[0].(string)] = r.at(kv[1].(int)).(T)
+				}
 			}
+			dom = append(dom, m)
 		}
-		dom = append(dom, m)
+		return dom
 	}
 	get := func(m any, key string) (any, bool) { v, ok := m.(map[string]T)[key]; return v, ok }
 	kind := func(m any) string {
@@ -501,7 +572,7 @@ func goMapOf[T any](k *inst[T]) *inst[map[string]T] {
 		}
 		return "map"
 	}
-	n := newNode("GoMap", dom, mapRef(k.n, get), mapShow(k.n, get, kind), k.n)
+	n := newNode("GoMap", mk, mapRef(k.n, get), mapShow(k.n, get, kind), k.n)
 	return finish[map[string]T](n, eq.GoMap[string](k.eq), nil)
 }
 
@@ -510,17 +581,21 @@ func goMapOf[T any](k *inst[T]) *inst[map[string]T] {
 // with hamt=true most are immutable.Map (the HAMT). The HAMT is instantiated for the base types
 // only: one instantiation costs about a second of compile time.
 func fpMapNode[T any](k *node, empty func() fp.Map[string, T]) *node {
-	var dom []any
-	for j, sh := range mapShapes {
-		var m fp.Map[string, T] // the zero value
-		if sh != nil && j != 3 {
-			m = empty()
+	mk := func() []any {
+		var dom []any
+		r := k.freshReps()
+		for j, sh := range mapShapes {
+			var m fp.Map[string, T] // the zero value
+			if sh != nil && j != 3 {
+				m = empty()
+			}
+			// shape 3 always grows from the zero value
+			for _, kv := range sh {
+				m = m.Updated(kv[0].(string), r.at(kv[1].(int)).(T))
+			}
+			dom = append(dom, m)
 		}
-		// shape 3 always grows from the zero value
-		for _, kv := range sh {
-			m = m.Updated(kv[0].(string), k.at(kv[1].(int)).(T))
-		}
-		dom = append(dom, m)
+		return dom
 	}
 	get := func(m any, key string) (any, bool) {
 		o := m.(fp.Map[string, T]).Get(key)
@@ -538,7 +613,7 @@ func fpMapNode[T any](k *node, empty func() fp.Map[string, T]) *node {
 		}
 		return "fp.Map/hamt"
 	}
-	return newNode("FpMap", dom, mapRef(k, get), mapShow(k, get, kind), k)
+	return newNode("FpMap", mk, mapRef(k, get), mapShow(k, get, kind), k)
 }
 
 func fpMapOf[T any](k *inst[T]) *inst[fp.Map[string, T]] {
@@ -577,13 +652,16 @@ func prodShow(kids []*node, split func(any) []any, open, sep, close string) func
 }
 
 func tuple1Of[T any](k *inst[T]) *inst[fp.Tuple1[T]] {
-	var dom []any
-	for _, v := range k.n.elems() {
-		dom = append(dom, as.Tuple1(v.(T)))
+	mk := func() []any {
+		var dom []any
+		for _, v := range k.n.freshReps().elems() {
+			dom = append(dom, as.Tuple1(v.(T)))
+		}
+		return dom
 	}
 	split := func(v any) []any { return []any{v.(fp.Tuple1[T]).I1} }
 	kids := []*node{k.n}
-	n := newNode("Tuple1", dom, prodRef(kids, split), prodShow(kids, split, "(", ",", ")"), kids...)
+	n := newNode("Tuple1", mk, prodRef(kids, split), prodShow(kids, split, "(", ",", ")"), kids...)
 	var h fp.Hashable[fp.Tuple1[T]]
 	if k.hash != nil {
 		h = hash.Tuple1(k.hash)
@@ -594,13 +672,17 @@ func tuple1Of[T any](k *inst[T]) *inst[fp.Tuple1[T]] {
 var pairShapes = [][2]int{{0, 0}, {0, 1}, {1, 0}, {0, 2}, {2, 0}, {2, 2}, {1, 2}, {2, 1}}
 
 func tuple2Of[T any](k *inst[T]) *inst[fp.Tuple2[T, T]] {
-	var dom []any
-	for _, sh := range pairShapes {
-		dom = append(dom, as.Tuple2(k.n.at(sh[0]).(T), k.n.at(sh[1]).(T)))
+	mk := func() []any {
+		var dom []any
+		r := k.n.freshReps()
+		for _, sh := range pairShapes {
+			dom = append(dom, as.Tuple2(r.at(sh[0]).(T), r.at(sh[1]).(T)))
+		}
+		return dom
 	}
 	split := func(v any) []any { t := v.(fp.Tuple2[T, T]); return []any{t.I1, t.I2} }
 	kids := []*node{k.n, k.n}
-	n := newNode("Tuple2", dom, prodRef(kids, split), prodShow(kids, split, "(", ",", ")"), kids...)
+	n := newNode("Tuple2", mk, prodRef(kids, split), prodShow(kids, split, "(", ",", ")"), kids...)
 	var h fp.Hashable[fp.Tuple2[T, T]]
 	if k.hash != nil {
 		h = hash.Tuple2(k.hash, k.hash)
@@ -609,13 +691,16 @@ func tuple2Of[T any](k *inst[T]) *inst[fp.Tuple2[T, T]] {
 }
 
 func hconsOf[T any](k *inst[T], nilI *inst[hlist.Nil]) *inst[hlist.Cons[T, hlist.Nil]] {
-	var dom []any
-	for _, v := range k.n.elems() {
-		dom = append(dom, hlist.Concat(v.(T), hlist.Empty()))
+	mk := func() []any {
+		var dom []any
+		for _, v := range k.n.freshReps().elems() {
+			dom = append(dom, hlist.Concat(v.(T), hlist.Empty()))
+		}
+		return dom
 	}
 	split := func(v any) []any { c := v.(hlist.Cons[T, hlist.Nil]); return []any{c.Head(), hlist.Tail(c)} }
 	kids := []*node{k.n, nilI.n}
-	n := newNode("HCons", dom, prodRef(kids, split), prodShow(kids, split, "", "::", ""), kids...)
+	n := newNode("HCons", mk, prodRef(kids, split), prodShow(kids, split, "", "::", ""), kids...)
 	var h fp.Hashable[hlist.Cons[T, hlist.Nil]]
 	if k.hash != nil {
 		h = hash.HCons(k.hash, nilI.hash)
@@ -633,13 +718,17 @@ type box[T any] struct {
 func unbox[T any](b box[T]) T { return b.v }
 
 func contraMapOf[T any](k *inst[T]) *inst[box[T]] {
-	dom := []any{box[T]{k.n.x.(T), 0}, box[T]{k.n.x.(T), 1}, box[T]{k.n.xa.(T), 2}, box[T]{k.n.y.(T), 3}, box[T]{k.n.y.(T), 0}}
-	for j, v := range k.n.rest {
-		dom = append(dom, box[T]{v.(T), 5 + j})
+	mk := func() []any {
+		r := k.n.freshReps()
+		dom := []any{box[T]{r.x.(T), 0}, box[T]{r.x.(T), 1}, box[T]{r.xa.(T), 2}, box[T]{r.y.(T), 3}, box[T]{r.y.(T), 0}}
+		for j, v := range r.rest {
+			dom = append(dom, box[T]{v.(T), 5 + j})
+		}
+		return dom
 	}
 	ref := func(a, b any) bool { return k.n.ref(a.(box[T]).v, b.(box[T]).v) }
 	show := func(v any) string { b := v.(box[T]); return fmt.Sprintf("box{%s #%d}", k.n.show(b.v), b.tag) }
-	n := newNode("ContraMap", dom, ref, show, k.n)
+	n := newNode("ContraMap", mk, ref, show, k.n)
 	var h fp.Hashable[box[T]]
 	if k.hash != nil {
 		h = hash.ContraMap(k.hash, unbox[T])
